@@ -188,6 +188,9 @@ def args(annotation: tp.Any, *, evaluate: bool = False) -> tp.Tuple[tp.Any, ...]
         a = getattr(annotation, "__args__", a)
 
     if evaluate:
+        # (A builtin generic keeps string arguments as they are; in a `Literal` they are values.)
+        if tp.get_origin(annotation) is not tp.Literal:
+            a = (*(refs.forwardref(r) if isinstance(r, str) else r for r in a),)
         a = (*(refs.evaluate(r) for r in a),)
 
     return (*_normalize_typevars(*a),)
